@@ -502,6 +502,13 @@ class ApplyConcatApply(Expr):
                 output_divisions=self.divisions,
             )
 
+        if "observed" in aggregate_kwargs and not aggregate_kwargs["observed"]:
+            # Groupby on categorical keys: the chunks already list the
+            # unobserved categories and the shuffle sends each of them to
+            # exactly one output partition.  Adding all of them once more in
+            # every output partition would duplicate them.
+            aggregate_kwargs = {**aggregate_kwargs, "observed": True}
+
         # Lower into ShuffleReduce
         return ShuffleReduce(
             chunked,
